@@ -96,6 +96,7 @@ func (s *Seq) Clone() seq.Rower {
 	for i, cs := range s.Seq {
 		c.Seq[i] = append([]alphabet.Letter(nil), cs...)
 	}
+	c.SubAnnotations = append([]seq.Annotation(nil), s.SubAnnotations...)
 
 	return &c
 }
